@@ -298,6 +298,31 @@ CLAIMS["C20"] = dict(
               "runs as labelled bounded cross-check",
     note="decided by a static resolver, not an SMT back end; trusted: CPython symtable/ast scoping, python-2 branches folded; "
          "excluded: names injected via globals()[...] (flow/zip.py), attribute errors on instances, module-scope ordering")
+
+# what the third build session added to each claim (DESIGN.md 0.8); appended to the claim text
+ADDENDA = {
+ "C01": "the six check_sequence_type predicates (exact documented tests, no exception; callers go through the contracts), LenaSequence.__init__ / __iter__ / __getitem__, __eq__ of the six sequence classes, Run.run / Run.__eq__, SourceEl.__call__; bounded: plain callables returning generators / iterators / containers composed 5 ways (a callable is a map)",
+ "C02": "DropContext._make_iterator (one value pulled per value handed on), the nested fill_deque of the negative Slice, End.__eq__; bounded: sized lazy iterables (__len__ + generator __iter__) as flows",
+ "C03": "LenaSplit.__init__ proved (was assumed), check_sequence_type predicates, Zip._create_data, Zip._create_context under the precondition that the common context has no `zip` item (the assumed summary stays for the Zip._yield callers)",
+ "C05": "FillCompute / FillRequest placeholders, _Fill.__init__, Run.__eq__, LenaSequence.__init__, SourceEl.__call__",
+ "C06": "Histogram.reset (three ways of construction) and Histogram.__init__ of the ELEMENT now run under C06 (a reset installs a new structure with n_out_of_range 0), clip, mesh / mesh_1d, refine_mesh, unify_1_md; bounded: fill / compute / reset histories of the element built from edges, initial bins, make_bins and initial_value",
+ "C07": "intersection for a list of dictionaries and for (d1, d2, level) proved from the real body against the left fold of the binary reference; bounded: arguments that hold one sub-dictionary object under two keys",
+ "C08": "Context.__getattr__ / __setattr__ / _repr_nested, DeleteContext.__init__, UpdateContext.__eq__",
+ "C09": "__eq__ of Sum / DSum / Count / StoreFilled / VarianceMeanCount / GroupBy as exact iff over the documented state, Sum.total / DSum.total, StoreFilled.__init__, GroupBy.clear / update, _maybe_with_context, lemmas `after reset() the element == a newly constructed one` through the proved __eq__",
+ "C10": "constructors and option handling of RunIf, MapGroup, GroupPlots, HistToGraph, MapBins, IterateBins, ToCSV, Write / Writer, PDFToPNG, LaTeXToPDF, RenderLaTeX (they establish the invariants the run contracts start from; defaults lemmas construct each element with the parameters omitted), is_pdf / is_tex_file, _select_template_or_default, DropContext.__init__ / _make_iterator, raise_on_usage; bounded: histograms whose bin content is a list as unselected values",
+ "C11": "md_map for 3-dimensional lists and its LenaTypeError cases (now also under C11), get_example_bin on histograms / lists of numbers; bounded: the argument Variable is left as given, repeated compute() yields the same context.variable, flows carrying a typed context.variable",
+ "C12": "graph._parse_error_names / _get_err_indices / __add__ / __eq__ / __iter__ / rows, histogram.__eq__, _isclose (the PEP 485 formula, symmetric), meshes.flatten, hist2d_to_csv.format_line, iterable_to_table for rows of numbers, Graph.points / scale[get] / unpack_pt of the deprecated Graph",
+ "C13": "MakeFilename.__call__ (frame: the stored static context is the same after every value), constructors and __eq__ of SetContext / StoreContext / UpdateContextFromStatic, Cache.__init__, LenaSplit._get_context against the PROVED intersection of a list of dictionaries; bounded: run-time values carrying items under a nested static key",
+ "C14": "Combine.__init__ (the combined getter returns the tuple of the variables' data in order, every variable's description kept as a deep copy under combine, dim, name default, LenaTypeError cases) with its getter lambda, Combine.__getitem__, Variable.__setattr__ / __repr__",
+ "C15": "_GroupBy.__init__ with its nested closures (string / callable / tuple grouping functions), __eq__ of Selector / And / Or / Not / Filter / IncludeExcludeTree / GroupBy; bounded: chains of 3..4 nested listed keys with alternating kinds in every order of writing them",
+ "C16": "FillRequest._run_run.slice_iterated_with_count (hands on min(size, remaining) values, counts exactly those, reads nothing ahead), the FillRequest.run placeholder, check_sequence_type predicates",
+ "C17": "RunningChunkBy.__init__, Reverse.__init__, __eq__ of Slice / Chain / CountFrom / Reverse / End, the nested fill_deque",
+ "C18": "Cache.__init__; the generators are re-entrant (ghost suspended_changes: self._filename may be re-bound by other code while the generator is suspended at a yield) and every clause speaks about the name the Cache had when the run started; SourceEl.__init__ / Source.__init__ with a Cache first proved (were assumed)",
+ "C19": "update_recursively[d, 'output.changed', flag] proved from the real body (was assumed, and the assumed clause was wrong for dictionary values), _run_command and LaTeXToPDF.run.launch over the ghost file system (subprocess.Popen starts exactly the given command line once), constructors of Write / PDFToPNG / LaTeXToPDF / RenderLaTeX / GroupPlots / MapGroup; bounded: PDFToPNG with formats other than png",
+}
+for _p, _t in ADDENDA.items():
+    if _p in CLAIMS:
+        CLAIMS[_p]["text"] += " Added in the third session (DESIGN.md 0.8) - proof part: " + _t + "."
 NA_REASON = "check not built yet (work in progress; see DESIGN.md section 8)"
 
 def main():
